@@ -36,19 +36,11 @@ func varargValues(st *xState, f *xFrame, v ssa.Value) ([]xVal, bool) {
 	return nil, false
 }
 
-// funcOfValue: the function a closure / method value / function value denotes.
-func funcOfValue(v xVal) *ssa.Function {
-	if v.K != xAtom {
-		return nil
-	}
-	switch t := v.V.(type) {
-	case *ssa.MakeClosure:
-		f, _ := t.Fn.(*ssa.Function)
-		return f
-	case *ssa.Function:
-		return t
-	}
-	return nil
+// funcOfValue: the function a closure / method value / function value (also
+// one kept in a func-typed field with a single target) denotes.
+func funcOfValue(st *xState, v xVal) *ssa.Function {
+	f, _ := st.x.funcOf(v)
+	return f
 }
 
 // isStopRunner explores fn (a Runner) and reports whether it returns once the
@@ -159,6 +151,27 @@ func (x *c12) checkCloserRun() {
 		return 0, FieldID{}, false
 	}
 	stopCache := map[*ssa.Function][2]bool{}
+	// The inner manager's running flag is only set by RunnerManager.Run; if
+	// the only place the package runs the inner manager is Run's own call tree,
+	// then on a path on which this Run won its test-and-set and has not started
+	// the inner manager yet, that flag is still unset.
+	innerOnlyHere := true
+	runTree := x.tree(fn)
+	rmTree := x.tree(x.rmRun)
+	for _, f := range p.FuncsOfPkg("concurrency") {
+		allInstrs(f, func(in ssa.Instruction) {
+			if ci, ok := in.(ssa.CallInstruction); ok && staticCallee(ci) == x.rmRun && !runTree[f] {
+				innerOnlyHere = false
+			}
+		})
+		if !rmTree[f] {
+			for _, name := range []string{"Store", "Swap", "CompareAndSwap"} {
+				if len(c12FlagCalls(f, x.rmRunning, name)) > 0 {
+					innerOnlyHere = false
+				}
+			}
+		}
+	}
 
 	const (
 		bOwn       = 1 << 0
@@ -238,6 +251,10 @@ func (x *c12) checkCloserRun() {
 			}
 			cl := &xClient{Lens: map[FieldID]int{x.cmClosers: n, x.rmRunners: m}, NoInline: func(f *ssa.Function) bool { return x.anchors[f] && f != fn }}
 			cl.OnBranch = func(st *xState, ifi *ssa.If, cond xVal, truth bool) bool {
+				if cond.Stale && st.Client&bOwn != 0 {
+					x.bad("C12.K3-lock", cSnap, x.pos(ifi), "the branch at "+x.pos(ifi)+" depends on the closers (their number) as read at a moment when they were not yet frozen — neither under the inner manager's lock nor after closing was set inside / before a section of that lock: an AddCloser in between is accepted but its closer is not counted (never invoked, or the collection indexes out of range / waits for the wrong number of results)")
+					return false
+				}
 				if x.tasTried(cond, x.cmRunning) {
 					sawTAS = true
 				}
@@ -246,6 +263,9 @@ func (x *c12) checkCloserRun() {
 				}
 				if joinNilFact(cond, truth) == 1 {
 					st.Client |= bJoinNil
+				}
+				if innerOnlyHere && st.Client&bOwn != 0 && st.Client&bInnerGo == 0 && x.flagSet(cond, truth, x.rmRunning) {
+					return false // infeasible: the inner manager has not been started yet
 				}
 				if st.Client&bEAct != 0 {
 					if fnn, _ := x.errFacts(st, cond, truth, isE); fnn != c12Unk {
@@ -265,7 +285,7 @@ func (x *c12) checkCloserRun() {
 			}
 			registerRunners := func(st *xState, vals []xVal, in ssa.Instruction) {
 				for _, val := range vals {
-					f := funcOfValue(val)
+					f := funcOfValue(st, val)
 					if f == nil {
 						continue
 					}
@@ -359,7 +379,7 @@ func (x *c12) checkCloserRun() {
 				}
 				switch v := in.(type) {
 				case *ssa.Call:
-					if c, ok := x.flagCall(v, x.cmClosing, "Store"); ok && len(c.Call.Args) == 2 && c12IsConstBool(c.Call.Args[1], true) {
+					if x.flagSetCall(v, x.cmClosing) {
 						st.Client |= bClosing
 						if st.Client&bLocked != 0 {
 							st.Client |= bFence
@@ -416,6 +436,10 @@ func (x *c12) checkCloserRun() {
 						}
 						for _, tv := range w.TaskVals {
 							ev := evalSpawnerSide(st, tv, v)
+							if ev.Stale || (ev.Base != nil && ev.Base.Stale) {
+								x.bad("C12.K3-lock", cSnap, x.pos(in), "the closer goroutine started at "+x.pos(in)+" takes its closer from a snapshot of the closers read when they were not yet frozen (not under the inner manager's lock, closing not yet set): a closer registered after that read is never invoked")
+								return false
+							}
 							if ev.K == xElem && ev.Base != nil && ev.Base.K == xField && ev.Base.Fld == x.cmClosers && ev.Idx != nil && ev.Idx.K == xInt && ev.Idx.I >= 0 && ev.Idx.I < 4 {
 								bit := uint64(1) << (shMask + uint(ev.Idx.I))
 								if st.Client&bit != 0 {
@@ -430,11 +454,18 @@ func (x *c12) checkCloserRun() {
 				case *ssa.UnOp:
 					switch v.Op {
 					case token.MUL:
-						if fa, ok := v.X.(*ssa.FieldAddr); ok && fieldIDOfAddr(fa) == x.cmClosers && st.Client&bInnerDone != 0 {
-							if st.Client&bLocked == 0 && st.Client&bFence == 0 {
-								x.bad("C12.K3-lock", cSnap, x.pos(in), "the closers are read at "+x.pos(in)+" after the runners returned, neither holding the inner manager's lock nor after closing was set inside / before a section of that lock: an AddCloser during the run can change them between the start of the closers and the collection of their results (a registered closer is not invoked, or Run waits for a result nobody sends)")
+						if fa, ok := v.X.(*ssa.FieldAddr); ok && fieldIDOfAddr(fa) == x.cmClosers {
+							// the value of this read is fixed now: it is the final list
+							// only if the closers are frozen at this moment (lock held, or
+							// closing set inside / before a section of the lock)
+							ev := st.Eval(v)
+							if ev.K == xField {
+								ev.Stale = st.Client&bLocked == 0 && st.Client&bFence == 0
+								st.set(st.fr, v, ev)
+								if !ev.Stale {
+									st.Client |= bRead
+								}
 							}
-							st.Client |= bRead
 						}
 					case token.ARROW:
 						return onRecv(st, in, v.X, v.CommaOk)
@@ -444,6 +475,9 @@ func (x *c12) checkCloserRun() {
 						// RunnerManager.Add inlined: runners = append(runners, …)
 						if ev := st.Eval(v.Val); ev.AppendedOK {
 							registerRunners(st, ev.Appended, in)
+						}
+						if st.Client&bOwn == 0 || st.Client&bInnerGo != 0 {
+							x.bad("C12.K0-once", cOnce, x.pos(in), "a runner is appended to the inner manager at "+x.pos(in)+" on a path on which this Run does not own the manager or has already started the inner manager: it is never started and the inner manager waits for a result that never comes")
 						}
 					}
 					if fa, ok := v.Addr.(*ssa.FieldAddr); ok && fieldIDOfAddr(fa) == x.cmRetErr {
@@ -657,7 +691,7 @@ func (x *c12) flagUnderLock(fn *ssa.Function, rule string, flag, data, lock Fiel
 		return true
 	}
 	cl.OnBranch = func(st *xState, ifi *ssa.If, cond xVal, truth bool) bool {
-		if x.loadIs(cond, flag) && !truth && st.Client&bLoadLock != 0 {
+		if x.flagUnset(cond, truth, flag) && st.Client&bLoadLock != 0 {
 			st.Client |= bUnset
 		}
 		return true
